@@ -373,6 +373,9 @@ def plan(ctx):
         jobs.append(((consumer, 2, 1, 1, False, "earliest", ((0, 1),), (0, 0), (0,), 2.0, "cfail"), 0))
         jobs.append(((consumer, 2, 1, None, False, None, (), (0, 0), (0,), 2.0), 0))
         jobs.append(((consumer, 2, 2, None, False, "earliest", (), (1,), (0, 1), 2.0, "wm0"), 0))
+        # reset=latest (explicit and by default) with a backlog in *every* partition of a multi-partition topic
+        jobs.append(((consumer, 2, 2, None, False, "latest", (), (0, 1, 1), (0, 1), 2.0), 0))
+        jobs.append(((consumer, 2, 3, None, False, None, (), (1, 2, 2), (2, 0), 2.0), 0))
     if T:
         # four messages / a longer horizon, deviation bound 0 (a crash is deviation-free everywhere)
         for consumer in ("sync", "buffer", "direct"):
